@@ -12,7 +12,8 @@ import (
 
 var pureExternalPrefixes = []string{"fmt.", "errors.", "strconv.", "strings.", "cosmossdk.io/errors.", "(*cosmossdk.io/errors.Error).",
 	"cosmossdk.io/math.", "(cosmossdk.io/math.Int).", "github.com/cosmos/ibc-go/v8/modules/core/04-channel/types.IsValidChannelID",
-	"(github.com/noble-assets/orbiter/v2/types/core.ProtocolID).String", "(github.com/noble-assets/orbiter/v2/types/core.ActionID).String"}
+	"(github.com/noble-assets/orbiter/v2/types/core.ProtocolID).String", "(github.com/noble-assets/orbiter/v2/types/core.ActionID).String",
+	"github.com/cosmos/gogoproto/proto.EnumName"}
 
 // impure returns a reason why fn's result may depend on anything but its value parameters, or "".
 func (e *Engine) impure(fn *ssa.Function, seen map[*ssa.Function]bool) string {
@@ -109,6 +110,9 @@ func (vc *VC) verdictTerm(ct *Contract, sig *types.Signature, args []Val, recvTy
 		ts = append(ts, args[i+k].t)
 	}
 	name := ct.PureVerdict
+	if name == "" {
+		name = ct.PureResult
+	}
 	if len(ts) == 0 {
 		return name
 	}
@@ -125,4 +129,21 @@ func errResultIndex(sig *types.Signature) int {
 		return n - 1
 	}
 	return -1
+}
+
+// namedTerm builds fname(params...) for pure-verdict / pure-result logic functions.
+func (vc *VC) namedTerm(fname string, sig *types.Signature, args []Val, hasRecv bool) string {
+	var ts []string
+	i := 0
+	if hasRecv {
+		ts = append(ts, args[0].t)
+		i = 1
+	}
+	for k := 0; k < sig.Params().Len(); k++ {
+		ts = append(ts, args[i+k].t)
+	}
+	if len(ts) == 0 {
+		return fname
+	}
+	return "(" + fname + " " + strings.Join(ts, " ") + ")"
 }
